@@ -179,9 +179,9 @@ RING_MODES = ["none", "suff", "suff_split", "suff_multi", "dpush", "partial"]
 
 
 @st.composite
-def ring_spec(draw, modes=None, chords=True, thru=True):
+def ring_spec(draw, modes=None, chords=True, thru=True, max_n=5):
     modes = modes or RING_MODES
-    n = draw(st.integers(2, 5))
+    n = draw(st.integers(2, max_n))
     names = [f"M{i}" for i in range(n)]
     steps = {m: draw(st.lists(st.integers(1, 5), min_size=1, max_size=2)) for m in names}
     need = sum(max(s) for s in steps.values())
